@@ -6,7 +6,10 @@ use crate::{
     base::{BlockType, ParamKey, TokenResult},
     utils,
 };
+#[cfg(not(sentinel_verif))]
 use std::sync::{atomic::Ordering, Arc, Weak};
+#[cfg(sentinel_verif)]
+use sentinel_verif_rt::sync::{atomic::Ordering, Arc, Weak};
 
 #[derive(Debug)]
 pub struct ThrottlingChecker<C: CounterTrait = Counter> {
@@ -88,7 +91,10 @@ impl<C: CounterTrait> Checker<C> for ThrottlingChecker<C> {
                         return TokenResult::new_pass();
                     }
                 } else {
+                    #[cfg(not(sentinel_verif))]
                     std::thread::yield_now();
+                    #[cfg(sentinel_verif)]
+                    sentinel_verif_rt::sync::yield_now();
                 }
             } else {
                 let msg = format!("hotspot throttling check blocked, wait time exceedes max queueing time, arg: {:?}", arg);
